@@ -208,7 +208,7 @@ pub fn make_case(progs: &[Vec<L>], cause: Cause, resolver: Resolver, mailbox: Ma
         desc,
         exec,
         bound,
-        scene: Box::new(ProgScene { spawn, roles: vec![role], clients, extra: X { cause }, oracle }),
+        scene: Box::new(ProgScene { attach: crate::progscene::Attach::None, spawn, roles: vec![role], clients, extra: X { cause }, oracle }),
     }
 }
 
